@@ -80,6 +80,9 @@ def r1_r2(cx):
         lb = ref_chain(du, c.b.place.l)[-1] if c.b.place is not None else None
         if c.op in ("Le", "Lt") and la == tw and lb == wt: le_edge, le_false = te, fe
         if c.op in ("Ge", "Gt") and la == wt and lb == tw: le_edge, le_false = te, fe
+        # the negated spellings: `countdown > quantum` / `quantum < countdown` are true exactly when the budget is NOT used up
+        if c.op == "Gt" and la == tw and lb == wt: le_edge, le_false = fe, te
+        if c.op == "Lt" and la == wt and lb == tw: le_edge, le_false = fe, te
         if c.op == "Eq" and c.b.is_const and c.b.cint() == 0 and any(k == "call" and o.callee.name == "num_busy" for k, o in sl.origins(c.a)): busy0_edge, busy_false = te, fe
     why = []
     if not err_rets: why.append("no Timeout return")
@@ -146,7 +149,49 @@ def r1_r2(cx):
                 te, fe = bool_edges(b.term, c)
                 okr = [s.bb for s in ls.stmts() if s.kind == "assign" and s.lhs.l == 0 and s.rv == "agg" and isinstance(s.agg, dict) and s.agg.get("variant") == "Ok"]
                 okl = some is not None and cfg.must_pass(some[2], [acc.bb] + cfg.returns(), {loads[0].bb}) and any(x in cfg.after(te, blocked_nodes={acc.bb}) for x in okr) and acc.bb not in cfg.after(te)
+    if not okl and loads:
+        okl = stop_flag_by_paths(ls, cfg, du, tedge, acc, loads)
     cx.check(okl, "C15.R2", "varlink:listen:stop-flag-polled", site, "a timed-out poll with a configured stop flag does not always load the flag, or a set flag does not return Ok(())", note_ok="Timeout & Some(flag): load(); true -> return Ok(())")
+
+
+def stop_flag_by_paths(ls, cfg, du, tedge, acc, loads):
+    """on every feasible path from the Timeout edge back to accept() or out of listen(): a configured flag (the Option matched on
+    `Some`) is loaded, and once the load returned true the path leaves with Ok(()) without accepting again"""
+    from vlib.cfg import enumerate_paths
+    from vlib.pathcond import literals
+    hit = [False]
+    paths = enumerate_paths(cfg, tedge[2], lambda blk: blk.idx == acc.bb or blk.term.kind == "return", du=du, on_limit=lambda: hit.__setitem__(0, True))
+    if hit[0]: return False
+    load_bbs = {t.bb for t in loads}
+    okr = {s.bb for s in ls.stmts() if s.kind == "assign" and s.lhs.l == 0 and s.rv == "agg" and isinstance(s.agg, dict) and s.agg.get("variant") == "Ok"}
+    sl = Slice(ls, du, extra_pass=("=as_ref", "=as_deref", "=clone"))
+    def is_flag_option(place):
+        sl.origins(place)
+        if any(any(e.startswith(".") for e in proj) and "stop_listening" in str(proj) for (_l, proj) in sl.last_seen): return True
+        for (l, proj) in sl.last_seen:
+            for k, d in du.defs.get(l, []):
+                if k == "stmt" and d.kind == "assign":
+                    for q in ([d.rplace] if d.rplace is not None else []) + [o.place for o in d.ops if o.place is not None]:
+                        if "stop_listening" in q.fields(): return True
+        return False
+    n_set = 0
+    for p in paths:
+        if p[-1] < 0: continue
+        some = False
+        for a, b in zip(p, p[1:]):
+            t = ls.blocks[a].term
+            if t.kind != "switch" or t.discr is None or t.discr.place is None or t.discr.place.p: continue
+            ds = du.value_defs(t.discr.place.l)
+            if len(ds) == 1 and ds[0][0] == "stmt" and ds[0][1].rv == "discr" and ds[0][1].rplace is not None and "Option" in ls.ty(ds[0][1].rplace.l):
+                labs = [lab for lab, d in cfg.succ[a] if d == b]
+                if labs and labs[0] == 1 and is_flag_option(ds[0][1].rplace): some = True
+        loaded = any(b in load_bbs for b in p)
+        if some and not loaded: return False
+        lt = [l.truth for l in literals(ls, p) if l.kind == "call" and l.obj in loads]
+        if lt and lt[-1] is True:
+            n_set += 1
+            if ls.blocks[p[-1]].term.kind != "return" or not any(b in okr for b in p): return False
+    return n_set > 0
 
 
 def r3(cx):
